@@ -254,7 +254,7 @@ def run(c):
                 except Exception:
                     pass
                 c.violation(sig, {"event_index": m_v, "event": ev, "context": lines[max(0, m_v - 8):m_v]},
-                            "HardforkTrace rejects the recorded execution at event %d of %d (a block changed its version / receipts across a restart, "
+                            "HardforkTrace rejects the recorded execution at event %d of %d (a block changed its version / receipts across a restart, the parent block held in memory was changed by deriving its child, "
                             "or the versions along the chain decrease): %s" % (m_v, total, ev[:300]))
         else:
             c.traces_validated = sum(1 for l in lines if '"Reset"' in l) + 1
